@@ -7,13 +7,19 @@ open IceModel.AgentCore IceProofs.Agent IceProofs.AgentC06
 
 /-- **Step of a controlling agent.**  Everything the nomination logic reads is untouched, except: the transaction of a
 nomination issued by this very event is added; an answered transaction `pd` on pair `id` selects that pair iff it was
-a USE-CANDIDATE check and (it carried a nomination value, or nothing was selected). -/
+a USE-CANDIDATE check and it carried a nomination value that is not superseded by a greater answered value, or it
+carried none and nothing was selected. -/
 theorem step_frame_ctl (a : Agent) (e : Ev) (hi : Inv a) (hst : a.started = true) (hk : keeps e = true)
     (hc : a.controlling = true) (hc' : (step a e).1.controlling = true) (hnf : (step a e).1.connState ≠ .failed) :
     NomQ ((answerOf a e).map (·.2)) (issueOf a e) a (step a e).1 ∧
     (step a e).1.selected =
       (match answerOf a e with
-       | some (pd, id) => if pd.useCand && (pd.nom.isSome || a.selected.isNone) then some id else a.selected
+       | some (pd, id) =>
+         if pd.useCand then
+           match pd.nom with
+           | some v => if supersededBy a.answeredNomination v then a.selected else some id
+           | none => if a.selected.isNone then some id else a.selected
+         else a.selected
        | none => a.selected) ∧
     (∀ pd id, answerOf a e = some (pd, id) → pd ∈ a.pending ∧ pairAddrs a id = some (pd.src, pd.dest)) := by
   by_cases hin : ∃ now la src m, e = .inbound now la src m
@@ -43,13 +49,18 @@ theorem step_frame_ctl (a : Agent) (e : Ev) (hi : Inv a) (hst : a.started = true
         obtain ⟨hT3, hF⟩ := thenForced now hT2 hinvI.idsNodup hnf
         refine ⟨?_, ?_, ?_⟩
         · exact ((hB.weaken (Or.inl rfl) (Or.inr rfl) (Or.inl rfl) (fun w => w)).trans
-            (hT3.weaken (Or.inr rfl) (Or.inl rfl) (Or.inl rfl) (fun w => w))).toNomQ
+            (hT3.weaken (Or.inr rfl) (Or.inr rfl) (Or.inl rfl) (fun w => w))).toNomQ
         · have hcB : (hsB a now m pd p).controlling = true :=
             (congrArg Core.controlling (hsB_core a now m pd p)).trans hc
           have e1 := hF.selected_eq
           have e2 : ((a.handleSuccess now m l r src).1.seenRemoteRecv r.uid now).selected =
               (a.handleSuccess now m l r src).1.selected := rfl
-          rw [e1, e2, hsel, hsSel_ctl _ p pd hcB, hsB_selected]
+          have haB : (hsB a now m pd p).answeredNomination = a.answeredNomination := by
+            unfold hsB
+            show (a.takePending now m.tid).1.answeredNomination = a.answeredNomination
+            rw [IceProofs.Agent.takePending_rest a now m.tid]
+          rw [e1, e2, hsel, hsSel_ctl _ p pd hcB, hsB_selected, haB]
+          cases pd.useCand <;> cases pd.nom <;> rfl
         · intro pd' id' h
           simp only [Option.some.injEq, Prod.mk.injEq] at h
           obtain ⟨rfl, rfl⟩ := h
@@ -72,21 +83,26 @@ theorem step_frame_ctl (a : Agent) (e : Ev) (hi : Inv a) (hst : a.started = true
     rw [hans]
     exact ⟨hg.toNomQ, hg.selected_eq, fun _ _ h => by cases h⟩
 
-/-- **Step of a controlled full agent**, the event not being an ordinary (value-less) nomination request. -/
+/-- **Step of a controlled full agent.** -/
 theorem step_frame_cld (a : Agent) (e : Ev) (hi : Inv a) (hst : a.started = true) (hk : keeps e = true)
     (hc : a.controlling = false) (hc' : (step a e).1.controlling = false) (hnf : (step a e).1.connState ≠ .failed)
-    (hfull : a.cfg.lite = false) (hplain : plainNomReq e = false) :
+    (hfull : a.cfg.lite = false) :
     -- (A) the pair's own check succeeds
     (∀ pd id, answerOf a e = some (pd, id) →
       ∃ p ∈ a.checklist, p.id = id ∧ NomQ (some id) none a (step a e).1 ∧
         (∀ p' ∈ (step a e).1.checklist, p'.id = id →
-          p'.state = .succeeded ∧ p'.nomOnSuccess = p.nomOnSuccess ∧ p'.deferredNom = p.deferredNom) ∧
+          p'.state = .succeeded ∧
+          (p.nomOnSuccess = true → p'.nomOnSuccess = false ∧ p'.deferredNom = none) ∧
+          (p.nomOnSuccess = false → p'.nomOnSuccess = false ∧ p'.deferredNom = p.deferredNom)) ∧
         (p.nomOnSuccess = false → (step a e).1.selected = a.selected) ∧
         (∀ v, p.nomOnSuccess = true → p.deferredNom = some v →
           (step a e).1.selected =
             match a.lastNomination with
             | some last => if v < last then a.selected else some id
-            | none => a.selected)) ∧
+            | none => a.selected) ∧
+        (p.nomOnSuccess = true → p.deferredNom = none →
+          (step a e).1.selected = a.selected ∨
+            ((step a e).1.selected = some id ∧ (a.selected = none ∨ a.lastNomination = none)))) ∧
     -- (B) a nomination value is accepted
     (∀ v la src, acceptAt a e = some (v, la, src) →
       ∃ id, reqPair a e = some id ∧ NomQ (some id) none a (step a e).1 ∧
@@ -97,8 +113,15 @@ theorem step_frame_cld (a : Agent) (e : Ev) (hi : Inv a) (hst : a.started = true
               (a.nextPairID < id ∧ p'.nomOnSuccess = false ∧ p'.deferredNom = none)) ∨
          ((step a e).1.selected = a.selected ∧
             ∀ p' ∈ (step a e).1.checklist, p'.id = id → nk p' = (false, true, some v)))) ∧
-    -- (C) anything else
-    (answerOf a e = none → acceptAt a e = none → NomQ none none a (step a e).1) := by
+    -- (C) anything else: quiet, or an ordinary nomination (USE-CANDIDATE without value) handled by the selector
+    (answerOf a e = none → acceptAt a e = none →
+      NomQ none none a (step a e).1 ∨
+      (plainNomReq e = true ∧ ∃ id, reqPair a e = some id ∧ NomQ (some id) none a (step a e).1 ∧
+        ((step a e).1.selected = a.selected ∨
+          ((step a e).1.selected = some id ∧ (a.selected = none ∨ a.lastNomination = none))) ∧
+        ∀ p' ∈ (step a e).1.checklist, p'.id = id →
+          (∃ p ∈ a.checklist, p.id = id ∧ (nk p' = nk p ∨ nk p' = ((nk p).1, true, (nk p).2.2))) ∨
+          (a.nextPairID < id ∧ (nk p' = (false, false, none) ∨ nk p' = (false, true, none))))) := by
   by_cases hin : ∃ now la src m, e = .inbound now la src m
   · obtain ⟨now, la, src, m, rfl⟩ := hin
     by_cases hreach : a.closed = false ∧ ∃ l, a.localByAddr la = some l
@@ -131,21 +154,47 @@ theorem step_frame_cld (a : Agent) (e : Ev) (hi : Inv a) (hst : a.started = true
           have e1 := hF.selected_eq
           have e2 : ((a.handleSuccess now m l r src).1.seenRemoteRecv r.uid now).selected =
               (a.handleSuccess now m l r src).1.selected := rfl
-          refine ⟨p, hpm, rfl, ?_, ?_, ?_, ?_⟩
+          refine ⟨p, hpm, rfl, ?_, ?_, ?_, ?_, ?_⟩
           · exact ((hB.weaken (Or.inl rfl) (Or.inr rfl) (Or.inl rfl) (fun w => w)).trans
-              (hT3.weaken (Or.inr rfl) (Or.inl rfl) (Or.inl rfl) (fun w => w))).toNomQ
+              (hT3.weaken (Or.inr rfl) (Or.inr rfl) (Or.inl rfl) (fun w => w))).toNomQ
           · intro p' hp' hid
-            have hmk := nk_carry hT3 (Nat.le_trans (hi.read_ids.2 p hpm) hB.npid)
-              (hsB_marks a now m pd' p hi.idsNodup hpm) p' hp' hid
-            unfold nk at hmk
-            simp only [Prod.mk.injEq, beq_iff_eq] at hmk
-            exact hmk
+            have hEnd := handleSuccess_marks a now m l r src pd' p hap hi.idsNodup (hi.read_ids.2 p hpm) hpm
+            have hGf := (seenRemoteRecv_g (wa := false) (a.handleSuccess now m l r src).1 r.uid now).trans
+              (hF.weaken (Or.inl rfl) (Or.inl rfl) (Or.inl rfl) (fun w => by cases w))
+            have hmk := nk_carry hGf (Nat.le_trans (hi.read_ids.2 p hpm) (Nat.le_trans hB.npid hT.npid)) hEnd p' hp' hid
+            unfold nk marksAfter at hmk
+            rw [hc] at hmk
+            cases hno : p.nomOnSuccess with
+            | true =>
+              rw [hno] at hmk
+              simp only [Bool.not_false, Bool.and_self, if_true, Prod.mk.injEq, beq_iff_eq] at hmk
+              exact ⟨hmk.1, fun _ => ⟨hmk.2.1, hmk.2.2⟩, fun h => (by cases h)⟩
+            | false =>
+              rw [hno] at hmk
+              simp only [Bool.not_false, Bool.and_false, Bool.false_eq_true, if_false, Prod.mk.injEq, beq_iff_eq] at hmk
+              exact ⟨hmk.1, fun h => (by cases h), fun _ => ⟨hmk.2.1, hmk.2.2⟩⟩
           · intro hno
             rw [e1, e2, hsel, hsSel_cld_plain _ p pd' hcB hno, hsB_selected]
           · intro v hno hdn
             rw [e1, e2]
             exact handleSuccess_deferred a now m l r src hc (a' := (a.takePending now m.tid).1) (pd := pd')
               (Prod.ext rfl htp) hnet hdest hsrc hfp hno hdn
+          · intro hno hdn
+            rw [e1, e2, hsel]
+            have hselB : ∀ sid, (hsB a now m pd' p).selected = some sid → ((hsB a now m pd' p).pairById sid).isSome = true := by
+              intro sid hs
+              rw [hsB_selected] at hs
+              obtain ⟨q, hq, _⟩ := hi.read_selected sid hs
+              obtain ⟨q', hq', hid'⟩ := hB.fwd q (C03.pairById_mem hq).1
+              have : ((hsB a now m pd' p).checklist.find? (·.id == sid)).isSome = true := by
+                rw [List.find?_isSome]
+                exact ⟨q', hq', by simp [hid', (C03.pairById_mem hq).2]⟩
+              exact this
+            have hlB : (hsB a now m pd' p).lastNomination = a.lastNomination :=
+              congrArg Core.lastNomination (hsB_core a now m pd' p)
+            rcases hsSel_cld_unvalued (hsB a now m pd' p) p pd' hcB hno hdn hselB with h1 | ⟨h1, h2⟩
+            · left; rw [h1, hsB_selected]
+            · right; rw [hsB_selected, hlB] at h2; exact ⟨h1, h2⟩
       · -- (B)
         intro v la' src' h
         obtain ⟨hd, hn, hacc, rfl, rfl⟩ := acceptAt_some hcl hst hl h
@@ -196,20 +245,90 @@ theorem step_frame_cld (a : Agent) (e : Ev) (hi : Inv a) (hst : a.started = true
           cases h : ansOf a now l src m with
           | none => rfl
           | some x => rw [h] at hans; cases hans
-        have hq := hi_quiet hi hcl now l src m ha (fun _ hd => by
-          have hcls : m.cls = 0 := ((cldDelivers_iff a l src m).1 hd).1.2.1
-          cases hn : m.nom with
-          | none =>
-            left
-            have huc : m.useCand = false := by
-              cases hu : m.useCand with
-              | false => rfl
-              | true => simp [plainNomReq, hcls, hn, hu] at hplain
-            simp [huc]
-          | some v =>
-            right
-            exact acceptAt_none hcl hst hl hacc hd v hn)
-        exact (thenForced now hq hinvI.idsNodup hnf).1.toNomQ
+        by_cases hpl : cldDelivers a l src m = true ∧ m.useCand = true ∧ m.nom = none
+        · -- an ordinary nomination reaches the controlled selector
+          obtain ⟨hd, hu, hn⟩ := hpl
+          right
+          obtain ⟨hauth, hsome, _, hnrc⟩ := (cldDelivers_iff a l src m).1 hd
+          have hcls : m.cls = 0 := hauth.2.1
+          refine ⟨by simp [plainNomReq, hcls, hu, hn], ?_⟩
+          rcases hres : resolveSource a l src m with ⟨a1, o0, rc⟩
+          rw [hres] at hsome
+          cases rc with
+          | none => cases hsome
+          | some r =>
+            obtain ⟨hinv1, hg1, hloc1, hr1, hraddr, hcore1⟩ := resolveSource_spec hi hcl l src m hres
+            have hI := handleInbound_cld a now l src m hauth hc ((roleConflict_eq_none a m).2 hnrc) hres
+            have hI1 : (a.handleInbound now l src m).1 =
+                (a1.cldHandleRequest now m l r).1.seenRemoteRecv r.uid now := by rw [hI]
+            rw [hI1] at hnf hinvI ⊢
+            have hln : a1.lastNomination = a.lastNomination := congrArg Core.lastNomination hcore1
+            have hlite : a1.cfg.lite = false := by
+              have : a1.cfg = a.cfg := congrArg Core.cfg hcore1
+              rw [this]; exact hfull
+            have hsel1 : a1.selected = a.selected := hg1.selected_eq
+            have hselOK : ∀ sid, a1.selected = some sid → (a1.pairById sid).isSome = true := by
+              intro sid hs
+              rw [hsel1] at hs
+              obtain ⟨q, hq, _⟩ := hi.read_selected sid hs
+              exact pairById_isSome_of_fwd hg1.fwd (by rw [hq]; rfl)
+            obtain ⟨hmem, hle, hG, hsd, hmk⟩ := cld_plain_g (wa := true) a1 now m l r hu hn hlite
+              hinv1.idsNodup hinv1.read_ids.2 hselOK
+            have hge := hg1.trans (ensurePair_g a1 l r)
+            refine ⟨(ensurePair a1 l r).2.id, reqPair_inbound a now la src m l hcl hst hl hres, ?_⟩
+            have hT2 := hG.then (seenRemoteRecv_g _ r.uid now)
+            obtain ⟨hT3, hF⟩ := thenForced now hT2 hinvI.idsNodup hnf
+            have hall := G.after hge hT3
+            refine ⟨hall.toNomQ, ?_, ?_⟩
+            · rw [hF.selected_eq]
+              show (a1.cldHandleRequest now m l r).1.selected = a.selected ∨ _
+              rcases hsd with h | ⟨h1, h2⟩
+              · exact Or.inl (h.trans hsel1)
+              · exact Or.inr ⟨h1, by rw [hsel1, hln] at h2; exact h2⟩
+            · intro p' hp' hid
+              obtain ⟨q, hq⟩ := ensurePair_pairById a1 l r
+              have hq' := hmk q hq
+              have hcar := nk_carry ((seenRemoteRecv_g (wa := true) _ r.uid now).trans hF)
+                (X := nk p') (Nat.le_trans hle hG.npid)
+              -- marks of the pair at the end of the handler, then carried to the end of the step
+              have hend : nk p' = nk q ∨ nk p' = ((nk q).1, true, (nk q).2.2) := by
+                rcases hF.pairs p' hp' (fun e => by cases e) with ⟨p1, hp1, hp1id, hnk1⟩ | ⟨hlt, _⟩
+                · have hp1' : p1 ∈ (a1.cldHandleRequest now m l r).1.checklist := hp1
+                  rcases hq' p1 hp1' (hp1id.trans hid) with h | h
+                  · exact Or.inl (hnk1.trans h)
+                  · exact Or.inr (hnk1.trans h)
+                · exfalso
+                  have h1 : (ensurePair a1 l r).2.id ≤ (a1.cldHandleRequest now m l r).1.nextPairID :=
+                    Nat.le_trans hle hG.npid
+                  have h2 : ((a1.cldHandleRequest now m l r).1.seenRemoteRecv r.uid now).nextPairID
+                      = (a1.cldHandleRequest now m l r).1.nextPairID := rfl
+                  rw [hid, h2] at hlt
+                  omega
+              -- the pair in the state where it exists: old, or created by the discovery / the handler
+              have hqm := (C03.pairById_mem hq).1
+              rcases hge.pairs q hqm (fun e => by cases e) with ⟨p0, hp0, hp0id, hnk0⟩ | ⟨hlt, hnk0⟩
+              · left
+                refine ⟨p0, hp0, hp0id.trans (C03.pairById_mem hq).2, ?_⟩
+                rw [← hnk0]; exact hend
+              · right
+                refine ⟨by rw [(C03.pairById_mem hq).2] at hlt; exact hlt, ?_⟩
+                rw [hnk0] at hend
+                exact hend
+        · left
+          have hq := hi_quiet hi hcl now l src m ha (fun _ hd => by
+            have hcls : m.cls = 0 := ((cldDelivers_iff a l src m).1 hd).1.2.1
+            cases hn : m.nom with
+            | none =>
+              left
+              have huc : m.useCand = false := by
+                cases hu : m.useCand with
+                | false => rfl
+                | true => exact absurd ⟨hd, hu, hn⟩ hpl
+              simp [huc]
+            | some v =>
+              right
+              exact acceptAt_none hcl hst hl hacc hd v hn)
+          exact (thenForced now hq hinvI.idsNodup hnf).1.toNomQ
     · have hskip : a.closed = true ∨ a.started = false ∨ a.localByAddr la = none := by
         cases hcl : a.closed with
         | true => exact Or.inl rfl
@@ -219,12 +338,13 @@ theorem step_frame_cld (a : Agent) (e : Ev) (hi : Inv a) (hst : a.started = true
           | some l => exact absurd ⟨hcl, l, hl⟩ hreach
       obtain ⟨h1, h2⟩ := step_inbound_skip a now la src m hskip
       rw [h1, answerOf_of_inboundOn_none _ _ h2, acceptAt_of_inboundOn_none _ _ h2]
-      exact ⟨fun _ _ h => (by cases h), fun _ _ _ h => (by cases h), fun _ _ => (G.refl true none none none a).toNomQ⟩
+      exact ⟨fun _ _ h => (by cases h), fun _ _ _ h => (by cases h),
+        fun _ _ => Or.inl (G.refl true none none none a).toNomQ⟩
   · have hne : ∀ now la src m, e ≠ .inbound now la src m := fun now la src m h => hin ⟨now, la, src, m, h⟩
     have hg := step_other_g hi hst e hk hne hnf
     have hio : inboundOn a e = none := by cases e <;> first | rfl | exact absurd rfl (hne _ _ _ _)
     rw [answerOf_of_inboundOn_none a e hio, acceptAt_of_inboundOn_none a e hio]
-    refine ⟨fun _ _ h => (by cases h), fun _ _ _ h => (by cases h), fun _ _ => ?_⟩
+    refine ⟨fun _ _ h => (by cases h), fun _ _ _ h => (by cases h), fun _ _ => Or.inl ?_⟩
     exact (hg.weaken (Or.inl rfl) (Or.inl rfl) (by
       have : issueOf a e = none := by
         cases e <;> first | rfl | (simp [issueOf, hc])
